@@ -7,6 +7,7 @@ CONSTANTS
   Pressures <- MCPressures
   Amounts <- MCAmounts
   IdealRTs <- MCIdealRTs
+  Memo = "none"
   Variant = "swapped"
 INVARIANT OnEquation
 INVARIANT OracleMatches
